@@ -212,9 +212,15 @@ int fiber_io_unlock_thread() {
   return FIBER_SUCCESS;
 }
 
+// true if fd can be used as an index into fd_info (and the event tables)
+static inline int fd_in_range(int fd) {
+  return fd >= 0 && fd_info && (rlim_t)fd < max_fd;
+}
+
 static inline int should_block(int fd) {
-  assert(fd >= 0);
-  if (!thread_locked && fd_info && fd < max_fd &&
+  // an invalid descriptor is the kernel's business: the real call fails with
+  // EBADF and the caller gets that error back
+  if (!thread_locked && fd_in_range(fd) &&
       fd_info[fd].flags_ & (IO_FLAG_BLOCKING | IO_FLAG_WAITABLE)) {
     return 1;
   }
@@ -610,9 +616,17 @@ int fcntl(int fd, int cmd, ...) {
 
   if (!thread_locked) {
     if (cmd == F_SETFL && (val == O_NONBLOCK || val == O_NDELAY)) {
-      assert(fd < max_fd);
-      atomic_fetch_and(&fd_info[fd].flags_, ~IO_FLAG_BLOCKING);
-      assert(!(fd_info[fd].flags_ & IO_FLAG_BLOCKING));
+      if (!fibershim_fcntl) {
+        fibershim_fcntl = (fcntlFnType)dlsym(RTLD_NEXT, "fcntl");
+      }
+      // let the kernel judge the descriptor (EBADF for a closed or bogus one)
+      if (fibershim_fcntl(fd, F_GETFL, 0) < 0) {
+        return -1;
+      }
+      if (fd_in_range(fd)) {
+        atomic_fetch_and(&fd_info[fd].flags_, ~IO_FLAG_BLOCKING);
+        assert(!(fd_info[fd].flags_ & IO_FLAG_BLOCKING));
+      }
       return 0;
     }
     // make sure O_NONBLOCK stays set
@@ -639,13 +653,21 @@ int ioctl(IOCTLPARAMS) {
       errno = EINVAL;
       return -1;
     }
-    assert(d < max_fd);
-    if (*(int*)val) {
-      atomic_fetch_and(&fd_info[d].flags_, ~IO_FLAG_BLOCKING);
-      assert(!(fd_info[d].flags_ & IO_FLAG_BLOCKING));
-    } else {
-      atomic_fetch_or(&fd_info[d].flags_, IO_FLAG_BLOCKING);
-      assert(fd_info[d].flags_ & IO_FLAG_BLOCKING);
+    if (!fibershim_fcntl) {
+      fibershim_fcntl = (fcntlFnType)dlsym(RTLD_NEXT, "fcntl");
+    }
+    // let the kernel judge the descriptor (EBADF for a closed or bogus one)
+    if (fibershim_fcntl(d, F_GETFL, 0) < 0) {
+      return -1;
+    }
+    if (fd_in_range(d)) {
+      if (*(int*)val) {
+        atomic_fetch_and(&fd_info[d].flags_, ~IO_FLAG_BLOCKING);
+        assert(!(fd_info[d].flags_ & IO_FLAG_BLOCKING));
+      } else {
+        atomic_fetch_or(&fd_info[d].flags_, IO_FLAG_BLOCKING);
+        assert(fd_info[d].flags_ & IO_FLAG_BLOCKING);
+      }
     }
     return 0;
   }
@@ -662,8 +684,8 @@ int close(int fd) {
     fibershim_close = (closeFnType)dlsym(RTLD_NEXT, "close");
   }
 
-  fiber_fd_closed(fd);
-  if (fd_info && fd < max_fd) {
+  if (fd_in_range(fd)) {
+    fiber_fd_closed(fd);
     fd_info[fd].flags_ = 0;
   }
   return fibershim_close(fd);
